@@ -32,7 +32,7 @@ Theorem C17_no_cleartext_at_switch : forall f o closes t evs so,
     /\ inn r' = [] /\ exhausted (en r') = true
     /\ later t = (HsOk, segs) :: l'
     /\ tls t = false /\ esmtp (ss t) = true /\ o_tlsinit o = true /\ N.land (comstate (ss t)) 16 <> 0%N
-    /\ evs = [TE false (Reply TLS_READY_CODE); TSwitch]
+    /\ evs = [TE false (Reply TLS_READY_CODE); TSwitch; TE true (Note NBadReset)]
     /\ so = Some {| ss := set_badcmds (set_comstate (set_rd (ss t) {| inn := []; en := {| cur := []; future := segs |} |}) 1%N) 0;
                     tls := true; later := l' |}.
 Proof. exact no_cleartext_at_switch. Qed.
@@ -50,12 +50,12 @@ Theorem C17_pending_cleartext_never_switches : forall f o closes t evs so l r',
 Proof. exact pending_cleartext_never_switches. Qed.
 Print Assumptions C17_pending_cleartext_never_switches.
 
-(** (1, whole run) Whatever happened before: the trace behind the switch is the trace of the command loop started in
-    the state [t'] — TLS on, lineinn empty, input = the TLS stream alone, initial command state, no sender, no
+(** (1, whole run) Whatever happened before: the trace behind the switch is (the ghost note "bad command counter reset" and) the
+    trace of the command loop started in the state [t'] — TLS on, lineinn empty, input = the TLS stream alone, initial command state, no sender, no
     recipients. *)
 Theorem C17_after_switch_only_tls_input : forall o sc pre post,
   trun o sc = pre ++ TSwitch :: post ->
-  exists f' t' segs, post = tserve f' o (sc_closes sc) t' /\ fresh_in_tls t' segs.
+  exists f' t' segs, post = TE true (Note NBadReset) :: tserve f' o (sc_closes sc) t' /\ fresh_in_tls t' segs.
 Proof. exact after_switch_only_tls_input. Qed.
 Print Assumptions C17_after_switch_only_tls_input.
 
@@ -74,7 +74,7 @@ Print Assumptions C17_mail_needs_new_greeting.
 
 Theorem C17_handoff_after_switch : forall o sc pre mid b env msg post,
   trun o sc = pre ++ TSwitch :: mid ++ TE b (Handoff env msg) :: post ->
-  exists a f rs, ttrace_run (o_clear o) mid a_init = Some a /\ a_txn a = Some (f, rs) /\ env = env_of (Some (f, rs)).
+  exists a f rs, ttrace_run (o_clear o) mid a_init = Some a /\ a_txn a = Some (f, rs) /\ env = env_of (o_liphost (o_clear o)) (Some (f, rs)).
 Proof. exact handoff_after_switch. Qed.
 Print Assumptions C17_handoff_after_switch.
 
@@ -184,7 +184,7 @@ Definition ex_oracles : toracles :=
                                           | 60%N :: c :: _ => AP_ok [c] None RLocal          (* <x...> *)
                                           | _ => AP_nobracket end;
                    o_ext := fun _ => Ext_ok 0 0; o_relay := 0%Z; o_mx := fun _ => 0;
-                   o_qq := fun _ => QQ_ok; o_databytes := 0%N; o_trace := fun _ _ _ _ _ => [67; 10]%N |};
+                   o_qq := fun _ => QQ_ok; o_databytes := 0%N; o_liphost := []; o_trace := fun _ _ _ _ _ => [67; 10]%N |};
      o_trace_tls := fun _ _ _ _ _ => [84; 10]%N; o_certfile := true; o_tlsinit := true; o_eat := 5 |}.
 Definition ehlo : bytes := [69;72;76;79;32;120;13;10]%N.
 Definition starttls : bytes := [83;84;65;82;84;84;76;83;13;10]%N.
@@ -205,6 +205,6 @@ Definition ex_script_injected : script :=
      sc_closes := false |}.
 Example C17_nonvacuous_injected :
   trun ex_oracles ex_script_injected
-  = [TE false (Reply 220%N); TE false (Note NBoundary); TE false (Note NHelo); TE false (Reply 250%N); TOffer;
-     TE false (Reply 503%N); TE false (Reply 503%N)].
+  = [TE false (Reply 220%N); TE false (Note NBoundary); TE false (Note NHelo); TE false (Reply 250%N); TE false (Note NBadReset); TOffer;
+     TE false (Reply 503%N); TE false (Note NBad); TE false (Reply 503%N)].
 Proof. vm_compute. reflexivity. Qed.
